@@ -104,3 +104,38 @@ Definition open_run (G : group) (w : nat) (x_own : Z) (others contributing : lis
   rbind (map_res (dec_share G (fst c)) contributing) (fun ds =>
   rbind (dec_finalize G (dec_accumulate G d_own ds) (snd c)) (fun m =>
   type_of_message G w m))))))).
+
+(* ---- Verify_Update with the verdict of its checks made explicit ------------------------------------------------
+   VerifiableDecryptionProtocol_Verify_Update :1086-1125: the stream is parsed, the key looked up, CheckElement and
+   CP_Verify run (their verdict is the boolean; the proofs themselves are C03's subject) and ONLY THEN d := d*d_j mod p.
+   A rejected update returns false and leaves d alone. *)
+Definition dec_update (G : group) (d : Z) (att : Z * bool) : bool * Z :=
+  if snd att then (true, (d * fst att) mod gp G) else (false, d).
+
+Definition dec_attempts (G : group) (d_own : Z) (atts : list (Z * bool)) : Z :=
+  fold_left (fun d a => snd (dec_update G d a)) atts d_own.
+
+(* what is offered to the opener: the correct share of the player with key x (accepted), or anything else (rejected) *)
+Inductive attempt : Type := Good (x : Z) | Bad (dj : Z).
+
+Definition offer (G : group) (c1 : Z) (a : attempt) : res (Z * bool) :=
+  match a with
+  | Good x => rbind (dec_share G c1 x) (fun s => inl (s, true))
+  | Bad dj => inl (dj, false)
+  end.
+
+Definition goods (atts : list attempt) : list Z :=
+  flat_map (fun a => match a with Good x => [x] | Bad _ => [] end) atts.
+
+(* open_run with an arbitrary interleaving of rejected and accepted update attempts *)
+Definition open_run_att (G : group) (w : nat) (x_own : Z) (others : list Z) (atts : list attempt) (T : Z)
+                        (chain : list (Z * bool)) : res Z :=
+  rbind (key_share G x_own) (fun h_own =>
+  rbind (map_res (key_share G) others) (fun hs =>
+  let h := common_key G h_own hs in
+  rbind (create_open_card G T) (fun c0 =>
+  rbind (remask_chain G h c0 chain) (fun c =>
+  rbind (dec_share G (fst c) x_own) (fun d_own =>
+  rbind (map_res (offer G (fst c)) atts) (fun offered =>
+  rbind (dec_finalize G (dec_attempts G d_own offered) (snd c)) (fun m =>
+  type_of_message G w m))))))).
